@@ -80,3 +80,26 @@ func TestOpenSSLVectors(t *testing.T) {
 	}
 	t.Logf("%d OpenSSL SM2 vectors verify", len(f.Vectors))
 }
+
+func TestLiftY(t *testing.T) {
+	found := 0
+	for i := int64(1); i <= 60; i++ {
+		y := new(big.Int).Lsh(big.NewInt(1), 255)
+		y.Sub(y, big.NewInt(i))
+		pt, ok := LiftY(y)
+		if !ok {
+			continue
+		}
+		found++
+		if !OnCurve(pt.X, pt.Y) || pt.Y.Cmp(y) != 0 {
+			t.Fatalf("LiftY(%x) returned a point off the curve or with another y", y)
+		}
+	}
+	// a point known to exist: G's own y
+	if pt, ok := LiftY(G.Y); !ok || !OnCurve(pt.X, pt.Y) {
+		t.Fatalf("LiftY(Gy) failed")
+	}
+	if found < 20 || found > 55 {
+		t.Fatalf("LiftY found points for %d of 60 values of y (about two thirds expected)", found)
+	}
+}
